@@ -229,6 +229,7 @@ const A_NOTIFY: usize = 3;
 const A_UPDATE: usize = 4;
 const A_DRAIN: usize = 5;
 const A_SPURIOUS: usize = 6;
+const A_SENDER_GONE: usize = 7;
 
 impl C08 {
     fn gen_script(t: &mut Tape, src: &VersionedSource, cfg: &Cfg, kind: RunKind, tier: Tier) -> Vec<Unit> {
@@ -385,9 +386,9 @@ impl C08 {
         // ---- schedule ------------------------------------------------------
         let mut sent = 0usize;
         let mut partial_header_notifies = 0u64;
-        let weights: [u64; 7] = match kind {
+        let weights: [u64; 8] = match kind {
             // The sweep drives the grid itself (below).
-            RunKind::Sweep(_) => [1, 0, 0, 0, 0, 0, 0],
+            RunKind::Sweep(_) => [1, 0, 0, 0, 0, 0, 0, 0],
             RunKind::Random => [
                 1,
                 6,
@@ -396,8 +397,10 @@ impl C08 {
                 if cfg.dynamic { 2 } else { 0 },
                 if cfg.out_cap != usize::MAX { 5 } else { 1 },
                 if ctx.chance(1, 3) { 1 } else { 0 },
+                if ctx.chance(1, 6) { 1 } else { 0 },
             ],
         };
+        let mut sender_gone = false;
 
         if let RunKind::Sweep(i) = kind {
             // grid: version (i%3) x cut position 0..=12 ((i/3)%13) x query kind
@@ -526,6 +529,19 @@ impl C08 {
                         s2c.lock().unwrap().wake_writer();
                         counters.bump("fault_spurious_wake");
                         ctx.ev(7, 0, || "spurious wake".into());
+                    }
+                    A_SENDER_GONE => {
+                        // The listener ends (Server::run returns and drops its
+                        // sender) and the application drops its sender too:
+                        // the notification channel closes. The connection must
+                        // keep answering queries.
+                        if !sender_gone {
+                            sender_gone = true;
+                            listener.close();
+                            drop(std::mem::replace(&mut notify, NotifySender::new()));
+                            counters.bump("fault_notify_channel_closed");
+                            ctx.ev(10, 0, || "listener closed and notify sender dropped (channel closes)".into());
+                        }
                     }
                     _ => unreachable!(),
                 }
